@@ -24,13 +24,16 @@ BOUNDS = {
     'thorough': dict(DEPTH=3, DEEP=4),
 }
 
-PARSE_SRC = ['1 + 2', '[1,\n2]\n3', '1 $ 2', 'a = 1\nb = 2\nc = = 3', '(1', '1)', '1 +', 'for', 'x = 1; y = (2', '{"a": [1,\n 2}']
+PARSE_SRC = ['1 + 2', '[1,\n2]\n3', '1 $ 2', 'a = 1\nb = 2\nc = = 3', '(1', '1)', '1 +', 'for', 'x = 1; y = (2', '{"a": [1,\n 2}',
+             'a = 1 +\n2', 'x =\n"q"', 'x + %abc', '- 1']
 EVAL_SRC = ['1 + 2', '[1,\n2]\n3', '1 $ 2', 'a = 1\nb = 2\nc = = 3', '(1', '1 +', '1 / 0', ('1 + 1 + 1 + 1', 3), 'for',
             'x = 1', 'x += 1', 'x', 'push(l, 1)', 'f = v => v + u', 'f(1)', 'map(l, v => v + u)', 'u', 'l', 'x = [l]; x[0]',
-            'total = 41\nboost = = 2', 'total + 1', ('map(l, v => v * 2)', 4), 'u = 3']
+            'total = 41\nboost = = 2', 'total + 1', ('map(l, v => v * 2)', 4), 'u = 3',
+            'a = 1 +\n2', '- 1', '[7]', '10 % 20', 'keys({2.5: "a"})', 'keys({2.50: "b"})', '{1: 1, 1.0: 2}', '1 / 3', '2 ** 0.5',
+            'round(1 / 0.0000000000000000000000000000000000000001 ** 99999999)', '0 ** 0', 'round(x9, 2)', 'round(float("inf"))', 'round(float("nan"), 2)', 'floor(float("-inf"))', 'int(float("nan"))', '10 ** 1000000000', 'len = 7; len']
 NAMES_SRC = ['price * qty + fee(region)', 'alpha + beta ? gamma', 'a\n(b,\nc', '"s" # x', '%a b% . c ( d']
 NAMES_MODES = ['full', 'abandon1', 'unstarted']
-NAMES_KINDS = ['fresh', 'P', 'Q']
+NAMES_KINDS = ['fresh', 'P', 'Q', 'none']
 BATTERY = [('parse', 'a\nb'), ('eval', '[1,\n2] + [3]', 'fresh', None), ('names', 'p + q\nr', 'full'),
            ('eval', 'x = 2; x * y', 'B', None), ('parse', '{"k": (1,\n2)}\nz')]
 
@@ -138,6 +141,34 @@ def parser_state(p):
     return repr(out)
 
 
+def module_state():
+    """Fingerprint of everything that outlives a call OUTSIDE the parser object: module-level containers and memo caches
+    of the smartquery modules, and the thread's decimal context (flags excluded: arithmetic sets them legitimately)."""
+    import sys
+    import decimal
+    out = []
+    for name in sorted(sys.modules):
+        if name != 'smartquery' and not name.startswith('smartquery.'):
+            continue
+        if name.startswith('smartquery.ply') or name.startswith('smartquery.gen'):
+            continue
+        mod = sys.modules[name]
+        for k in sorted(vars(mod)):
+            v = vars(mod)[k]
+            if k.startswith('__'):
+                continue
+            if isinstance(v, (dict, list, set)):
+                r = repr(dump_obj(v))
+                out.append((name, k, hashlib.sha1(r.encode('utf-8', 'surrogatepass')).hexdigest() if len(r) > 200 else r))
+            elif callable(v) and hasattr(v, 'cache_info'):
+                out.append((name, k, 'cache', v.cache_info().currsize))
+            elif isinstance(v, (int, float, str, bool, type(None))):
+                out.append((name, k, repr(v)))
+    c = decimal.getcontext()
+    out.append(('decimal', c.prec, c.rounding, c.Emin, c.Emax, c.capitals, c.clamp, tuple(sorted(str(t) for t, on in c.traps.items() if on))))
+    return out
+
+
 class World:
     def __init__(self, template, shared_parser):
         self.template = template
@@ -158,7 +189,7 @@ class World:
                 return ('ok', show(p.parse(act[1])))
             if kind == 'eval':
                 nk = act[2]
-                names = {} if nk == 'fresh' else self.pers[nk]
+                names = ({'x9': float('inf')} if nk == 'fresh' else (None if nk == 'none' else self.pers[nk]))
                 kw = {}
                 if act[3] is not None:
                     kw['max_ops_evaluated'] = act[3]
@@ -181,11 +212,26 @@ class World:
 
 
 _template = [None]
+_MS0 = [None]
+
+
+def _restore_module_state():
+    """After a reported change: put back what can be put back so that the remaining histories are judged on their own."""
+    import sys
+    import decimal
+    decimal.setcontext(decimal.Context(prec=28, rounding=decimal.ROUND_HALF_EVEN, Emin=-999999, Emax=999999, capitals=1, clamp=0,
+                                       flags=[], traps=[decimal.InvalidOperation, decimal.DivisionByZero, decimal.Overflow]))
+    for name, mod in list(sys.modules.items()):
+        if name.startswith('smartquery') and mod is not None:
+            for k, v in list(vars(mod).items()):
+                if callable(v) and hasattr(v, 'cache_clear'):
+                    v.cache_clear()
 
 
 def template():
     if _template[0] is None:
         _template[0] = snapshot.api().new_parser()
+        _MS0[0] = module_state()
     return _template[0]
 
 
@@ -199,6 +245,7 @@ def run_history(res, hist, check_all=False):
     A = World(tpl, clone.pristine(tpl))
     B = World(tpl, None)
     last_exc = False
+    ms0 = _MS0[0]
     for i, act in enumerate(hist):
         ra = A.call(act)
         rb = B.call(act)
@@ -223,6 +270,15 @@ def run_history(res, hist, check_all=False):
                 res.violation(f'after-exception:{_sig(hist[-1])}:{act[0]}', 'after an exception the parser is no longer fully usable',
                               {'history': [list(map(_j, a)) for a in hist] + [list(map(_j, act))], 'expected': repr(rb)[:400], 'observed': repr(ra)[:400]})
                 return None, False
+    ms1 = module_state()
+    if ms1 != ms0:
+        diff = [x for x in ms1 if x not in ms0][:3]
+        res.violation(f'module-state:{diff[0][0] if diff else "?"}:{diff[0][1] if diff else "?"}',
+                      'a call changed state that outlives it outside the parser object (module-level container / memo cache / decimal '
+                      'context): later calls in this process no longer depend on their arguments only',
+                      {'history': [list(map(_j, a)) for a in hist], 'expected': 'pristine module state', 'observed': repr(diff)[:400]})
+        _restore_module_state()
+        return None, False
     st = parser_state(A.shared) + A.pers_state()
     return st, True
 
